@@ -1,9 +1,6 @@
 package sim
 
 func oracleC02(r *Result) {}
-func oracleC05(r *Result) {}
-func oracleC06(r *Result) {}
-func oracleC07(r *Result) {}
 func oracleC09(r *Result) {}
 func oracleC11(r *Result) {}
 func oracleC12(r *Result) {}
